@@ -32,7 +32,7 @@ Item: Def | Box | Use | Wrap | AltUse;
 Def: 'def' name=ID ('=' v=INT)? (tag=Tag)?;
 Box: 'box' name=ID '{{' items*=Item '}}';
 AltUse: 'altuse' name=ID ':' alts+={refc}[','];
-Use: 'use' name=ID ':' refs+={ref}[','] ('one' one={ref})? ('opt' opt={ref})? ('alt' alt={refc})?;
+Use: 'use' name=ID ':' refs+={ref}[','] ('one' one={ref})? ('opt' opt={ref})? ('alt' alt={refc})? ('also' refs+={ref}[','])?;
 Wrap: inner=Inner (e?='end')?;
 Inner: 'w' name=ID;
 Tag: /#\\w+/;
@@ -76,6 +76,7 @@ class Ent:
         self.stop = None
         self.idx = None  # index in the containing list
         self.pre_tokens = []  # raw tokens injected before this entity (faults)
+        self.split = None  # use: the reference list continues after the single references ('also' ...) from this index
 
     def path(self):
         """index path from the model root: ('items', i, 'items', j ...)"""
@@ -264,7 +265,8 @@ class World:
                 T(e.name, "name")
                 _, b = T(":")
                 lst = [r for r in e.refs if r.attr == "refs"]
-                for i, r in enumerate(lst):
+                cut = e.split if e.split and 0 < e.split < len(lst) else len(lst)
+                for i, r in enumerate(lst[:cut]):
                     if i:
                         T(",")
                     r.text = self.ref_text(r)
@@ -275,6 +277,14 @@ class World:
                             T(attr)
                             r.text = self.ref_text(r)
                             r.pos, b = T(r.text, "ref" if attr != "alt" else "refc")
+                if cut < len(lst):
+                    # the same list attribute assigned at a second place of the rule, other references in between
+                    T("also")
+                    for i, r in enumerate(lst[cut:]):
+                        if i:
+                            T(",")
+                        r.text = self.ref_text(r)
+                        r.pos, b = T(r.text, "ref")
                 e.start, e.stop = a, b
             elif e.kind == "wrap":
                 a, _ = T("w")
@@ -443,6 +453,9 @@ def gen_world(tape, root, nfiles=1, qualified=False, max_refs=16, boxes=True, wr
                 r = Ref(u, "refs", k, vis[ti])
                 u.refs.append(r)
             budget -= nl
+            if nl >= 2 and tape.chance(1, 4, "list-continued-after-the-single-references"):
+                u.split = 1 + tape.draw(nl - 1, "split-at")
+                w.split_lists = True
             for attr in ("one", "opt"):
                 if budget > 0 and tape.chance(1, 3, "has-" + attr):
                     r = Ref(u, attr, None, tape.pick(vis, attr + "-target"))
